@@ -24,7 +24,9 @@ Inductive attempt :=
                                      mid-negotiation, stream header that cannot be written).  permanent:
                                      ConnError.Permanent (rejected credentials, TLS policy failure, refused
                                      handshake).  drops: NewSession returned no Session object (the early
-                                     failures), the resumption state held by the client is gone with it *)
+                                     failures) AND the client forgets the one it had, so that the resumption state
+                                     is gone (the code as it is keeps the previous object: no failure of the harness
+                                     says drops any more; hunt2-C13/f1) *)
 | AHookFail (grant : bool)        (* negotiated to the end, then the application's PostResumeHook reports an
                                      error: Resume closes the session and reports the attempt as failed *)
 | AOk (grant : bool).             (* negotiated to the end.  grant: the server answers <resumed/> IF it is asked
@@ -246,5 +248,14 @@ Definition handshake_cut : attempt := AFail false true.
    stream (closing the failed connection then fails too, over TLS the close_notify cannot be
    written): the attempt is as permanent as when the server waits for the closing tag. *)
 Definition rejected_then_hung_up : attempt := AFail true false.
+(* On a wss:// address the TLS handshake is part of the dial: a server certificate that does
+   not verify (and the refusal of a redirect to an unprotected address) is the TLS policy
+   failure of that transport -- permanent, as a refused handshake after <proceed/> is. *)
+Definition wss_certificate_refused : attempt := AFail true false.
+(* The server ends the stream itself where the negotiation awaits its first features (or
+   <proceed/>): </stream:stream>, or <stream:error/> whatever the condition.  It is going
+   down or not up yet: a failed attempt that is waited out, like the cut connection it is the
+   polite form of.  (An ELEMENT other than the awaited one stays permanent.) *)
+Definition stream_ended_by_server : attempt := AFail false false.
 Definition attempt_permanent (a : attempt) : bool :=
   match a with AFail p _ => p | _ => false end.
